@@ -999,4 +999,79 @@ theorem encodeRow_cmp (fs : List (FTy × SortOptions)) : ∀ (r1 r2 : List FVal)
         rw [cmpStrict_append_of_cmpStrict _ _ (encodeField_cmp o t a b h1.1 h2.1), ih as bs h1.2 h2.2]
         cases compareField o t a b <;> rfl
 
+
+theorem encSched_length_pos (k : Nat) (v : List UInt8) : 0 < (encSched k v).length :=
+  List.length_pos_iff.mpr (encSched_ne_nil k v)
+
+theorem u8_ofNat_ne_cont {n : Nat} (h : n ≤ 32) : UInt8.ofNat n ≠ blockContinuation := by
+  intro he
+  have := u8_ofNat_lt_cont h
+  rw [he] at this
+  exact u8_lt_irrefl _ this
+
+theorem decodeBlocksFrom_succ (desc : Bool) (fuel k : Nat) (row acc : List UInt8) :
+    decodeBlocksFrom desc (fuel + 1) k row acc =
+      match row[schedSize k]? with
+      | none => none
+      | some sentinel =>
+        if sentinel ≠ (if desc then ~~~blockContinuation else blockContinuation) then
+          some (acc ++ row.take (if desc then (~~~sentinel).toNat else sentinel.toNat), row.drop (schedSize k + 1))
+        else decodeBlocksFrom desc fuel (k + 1) (row.drop (schedSize k + 1)) (acc ++ row.take (schedSize k)) := rfl
+
+theorem decodeBlocks_last (k fuel : Nat) (v acc rest : List UInt8) (hv : v.length ≤ schedSize k) (hf : 0 < fuel) :
+    decodeBlocksFrom false fuel k (encSched k v ++ rest) acc = some (acc ++ v, rest) := by
+  obtain ⟨fuel', rfl⟩ : ∃ f, fuel = f + 1 := ⟨fuel - 1, by omega⟩
+  have hs := schedSize_le k
+  rw [encSched.eq_1, if_pos hv, decodeBlocksFrom_succ]
+  have hlen : (v ++ zeros (schedSize k - v.length)).length = schedSize k := by simp [zeros]; omega
+  have hrow : v ++ zeros (schedSize k - v.length) ++ [UInt8.ofNat v.length] ++ rest
+      = (v ++ zeros (schedSize k - v.length)) ++ (UInt8.ofNat v.length :: rest) := by simp
+  rw [hrow]
+  have hidx : ((v ++ zeros (schedSize k - v.length)) ++ (UInt8.ofNat v.length :: rest))[schedSize k]? = some (UInt8.ofNat v.length) := by
+    rw [List.getElem?_append_right (by omega), hlen]; simp
+  rw [hidx]
+  simp only [Bool.false_eq_true, if_false]
+  rw [if_pos (u8_ofNat_ne_cont (by omega))]
+  have htn : (UInt8.ofNat v.length).toNat = v.length := by
+    rw [UInt8.toNat_ofNat']; exact Nat.mod_eq_of_lt (by omega)
+  rw [htn]
+  have h1 : List.take v.length ((v ++ zeros (schedSize k - v.length)) ++ (UInt8.ofNat v.length :: rest)) = v := by
+    rw [List.append_assoc, List.take_left']; rfl
+  have h2 : List.drop (schedSize k + 1) ((v ++ zeros (schedSize k - v.length)) ++ (UInt8.ofNat v.length :: rest)) = rest := by
+    rw [show schedSize k + 1 = (v ++ zeros (schedSize k - v.length)).length + 1 by omega, List.drop_append]; simp
+  rw [h1, h2]
+
+theorem decodeBlocks_asc (n : Nat) : ∀ (k fuel : Nat) (v acc rest : List UInt8), v.length ≤ n →
+    (encSched k v).length ≤ fuel →
+    decodeBlocksFrom false fuel k (encSched k v ++ rest) acc = some (acc ++ v, rest) := by
+  induction n with
+  | zero =>
+    intro k fuel v acc rest hv hf
+    exact decodeBlocks_last k fuel v acc rest (by omega) (by have := encSched_length_pos k v; omega)
+  | succ n ih =>
+    intro k fuel v acc rest hv hf
+    have hs := schedSize_pos k
+    by_cases hl : v.length ≤ schedSize k
+    · exact decodeBlocks_last k fuel v acc rest hl (by have := encSched_length_pos k v; omega)
+    · obtain ⟨fuel', rfl⟩ : ∃ f, fuel = f + 1 := ⟨fuel - 1, by have := encSched_length_pos k v; omega⟩
+      rw [encSched.eq_1, if_neg hl] at hf ⊢
+      rw [decodeBlocksFrom_succ]
+      have htl : (v.take (schedSize k)).length = schedSize k := by simp; omega
+      have hrow : List.take (schedSize k) v ++ blockContinuation :: encSched (k + 1) (List.drop (schedSize k) v) ++ rest
+          = List.take (schedSize k) v ++ (blockContinuation :: (encSched (k + 1) (List.drop (schedSize k) v) ++ rest)) := by simp
+      rw [hrow]
+      have hidx : (List.take (schedSize k) v ++ (blockContinuation :: (encSched (k + 1) (List.drop (schedSize k) v) ++ rest)))[schedSize k]?
+          = some blockContinuation := by
+        rw [List.getElem?_append_right (by omega), htl]; simp
+      rw [hidx]
+      simp only [Bool.false_eq_true, if_false, ne_eq, not_true_eq_false]
+      have h1 : List.take (schedSize k) (List.take (schedSize k) v ++ (blockContinuation :: (encSched (k + 1) (List.drop (schedSize k) v) ++ rest)))
+          = v.take (schedSize k) := by
+        rw [List.take_left' htl]
+      have h2 : List.drop (schedSize k + 1) (List.take (schedSize k) v ++ (blockContinuation :: (encSched (k + 1) (List.drop (schedSize k) v) ++ rest)))
+          = encSched (k + 1) (List.drop (schedSize k) v) ++ rest := by
+        rw [show schedSize k + 1 = (List.take (schedSize k) v).length + 1 by omega, List.drop_append]; simp
+      rw [h1, h2, ih (k + 1) fuel' (v.drop (schedSize k)) _ rest (by simp; omega) (by simp at hf; omega)]
+      rw [List.append_assoc, List.take_append_drop]
+
 end ArrowModel.C11
